@@ -13,6 +13,12 @@ CHECKS = {
         design="§4 C16"),
 }
 
+CHECKS["C01"] = dict(
+    technique="TLC model checking of StatusTransfer.tla (async+sync variants; safety under loss/dup/re-order/timeouts, fault-free liveness) + replay of TLC-emitted transitions into the real structure classes/simulator + TLC trace validation of real-scale fault-injected transfers",
+    text="All (start,len) ranges of a small block are model-checked against every loss/duplication/re-ordering/timeout pattern within a fault budget for both client variants (NoPartialInstall, OkMeansSpaBytes with per-byte source offsets, SentBound, fault-free success as a liveness property). TLC's transitions are replayed step by step on GeckoAsyncStructure.get / GeckoStructure + the real simulator chain with projected state compared after every action; at real scale (1024/39/configured retries) seeded fault scripts are recorded and TLC validates each log as a behaviour of the spec, evaluating the invariants on every state.",
+    note="Trusted: TLC, W1/W2 doubles, un-framing by the real packet handler outside the consumer task, byte classification (old/spa/junk) with position-coded or random blocks. Fault-free success is at transfer level (queue races are C07).",
+    design="§4 C01")
+
 NOT_YET = {}
 
 
